@@ -283,6 +283,25 @@ func init() {
 					return Res{"setup": false, "err": "options: " + errStr(merr)}
 				}
 				var keys []lease_set2.EncryptionKey
+				// encryption-key entries of the legacy 256-byte type whose bytes are an extreme number (the constructor only looks at the length)
+				switch m.Str("elgkeys") {
+				case "zeros":
+					keys = append(keys, lease_set2.EncryptionKey{KeyType: 0, KeyLen: 256, KeyData: make([]byte, 256)})
+				case "ones":
+					kd := make([]byte, 256)
+					for i := range kd {
+						kd[i] = 0xFF
+					}
+					keys = append(keys, lease_set2.EncryptionKey{KeyType: 0, KeyLen: 256, KeyData: kd})
+				case "one":
+					kd := make([]byte, 256)
+					kd[255] = 1
+					keys = append(keys, lease_set2.EncryptionKey{KeyType: 0, KeyLen: 256, KeyData: kd})
+				case "random":
+					kd := make([]byte, 256)
+					rng.Read(kd)
+					keys = append(keys, lease_set2.EncryptionKey{KeyType: 0, KeyLen: 256, KeyData: kd})
+				}
 				for i := 0; i < m.Int("nkeys"); i++ {
 					kd := make([]byte, 32)
 					rng.Read(kd)
